@@ -97,14 +97,46 @@ def gen_conform(rng):
     return text
 
 
-def check_batch(ad, texts, mode, part):
-    res = ad.call(op="lexmany", texts=texts)
+def _charpos(b, i):
+    while 0 < i < len(b) and (b[i] & 0xC0) == 0x80: i -= 1
+    return i
+
+
+def earlier_version(rng, text):
+    """(old text, a, e, new): a text one change away from `text` (byte offsets in the old text), such that applying the change yields `text`:
+    a span of `text` is missing, or a surplus piece stands there, or another piece stands in its place. Blank-only insertions at the end
+    of the text and behind comments are frequent on purpose (an editor's most common change)."""
+    b = text.encode()
+    c = rng.random()
+    if c < .25 and b:
+        # the last k characters were typed last (k = 1 mostly)
+        a = _charpos(b, max(0, len(b) - rng.choice([1, 1, 1, 2, 3]))); e = len(b)
+    else:
+        a, e = sorted(_charpos(b, rng.randrange(len(b) + 1)) for _ in range(2))
+        if rng.random() < .7: e = _charpos(b, min(e, a + rng.choice([1, 1, 2, 4, 9])))
+    span = b[a:e]
+    m = rng.random()
+    if m < .6: old_piece = b""
+    else:
+        x = _charpos(b, rng.randrange(len(b) + 1)); y = _charpos(b, min(len(b), x + rng.choice([1, 2, 3, 6])))
+        old_piece = b[x:y]
+        if m < .8: span = b""; e = a                        # surplus piece, the change deletes it
+    if old_piece == span: return None
+    old = b[:a] + old_piece + b[e:]
+    return [old.decode(), a, a + len(old_piece), span.decode()]
+
+
+def check_batch(ad, texts, mode, part, via=None):
+    """via: list of (old text, a, e, new) per text - the tokens are then those of lexer::update after lex(old text)"""
+    res = ad.call(op="lexmany", texts=texts) if via is None else ad.call(op="lexvia", items=via)
     if "results" not in res:
         part["inconclusive"].append("adaptor: %r" % (res,)); return
-    for text, toks in zip(texts, res["results"]):
+    for k, (text, toks) in enumerate(zip(texts, res["results"])):
         part.ev()
+        if isinstance(toks, dict) and toks.get("harness_error"):
+            part["inconclusive"].append("harness produced a bad change"); continue
         if isinstance(toks, dict):
-            part.fail("lexer panicked on %r: %s" % (text[:80], toks.get("panic")), {"kind": mode, "text": text}); continue
+            part.fail("lexer panicked on %r: %s" % (text[:80], toks.get("panic")), {"kind": mode, "text": text, "via": via[k] if via else None}); continue
         fails = tiling_failures(text, toks)
         nt = len(toks) - 1
         if mode == "conform":
@@ -115,8 +147,10 @@ def check_batch(ad, texts, mode, part):
                 for (x, y) in zip(toks, toks[1:]): part.add("adjacent_kind_pairs", "%s %s" % (x[0], y[0]))
         if nt >= 2: part.see(hash(text))
         for t in toks: part.add("token_kinds", t[0] if not t[4] else t[0] + "+error")
+        if via is not None: part.cnt("texts_reached_by_an_incremental_update")
         if fails:
-            part.fail("%s on %r: %s" % (mode, text[:120], "; ".join(fails[:3])), {"kind": mode, "text": text})
+            part.fail("%s on %r%s: %s" % (mode, text[:120], "" if via is None else " (token sequence after lexer::update from %r)" % (via[k][0][:60],), "; ".join(fails[:3])),
+                      {"kind": mode, "text": text, "via": via[k] if via else None})
         elif nt >= 2:
             part.sample({"part": mode, "text": text, "tokens": [[t[0], t[1], t[2], t[3]] for t in toks[:12]]}, 2)
 
@@ -129,6 +163,15 @@ def worker(args):
     gen = gen_tiling if mode == "tiling" else gen_conform
     for _ in range(0, n, 200):
         check_batch(ad, [gen(rng) for _ in range(200)], mode, part)
+    # "for every text": also for the token sequences the incremental lexer leaves behind (a quarter as many texts, each reached by one change)
+    for _ in range(0, n // 4, 200):
+        texts = []; via = []
+        while len(texts) < 200:
+            t = gen(rng)
+            v = earlier_version(rng, t)
+            if v is None: continue
+            texts.append(t); via.append(v)
+        check_batch(ad, texts, mode, part, via)
     ad.close()
     return part
 
@@ -160,15 +203,17 @@ def run(ctx):
     for part in ex: n_ex += part["evaluations"]; ctx.merge(part)
     ctx.extra["exhaustive_part"] = {"alphabet": EXH_ALPHABET, "max_length": maxlen, "texts": n_ex, "complete": True}
     ctx.rule = ("random strings over a %d-symbol hostile alphabet (tiling) + random concatenations of SPL lexemes with separators (tiling + "
-                "conformance with the reference lexer where the text is lexically valid) + all strings up to length %d over a %d-symbol alphabet; "
+                "conformance with the reference lexer where the text is lexically valid) + all strings up to length %d over a %d-symbol alphabet; a fifth of the random "
+                "texts are reached by one change (typed tail, missing / surplus / exchanged piece) and judged on the token sequence lexer::update returns; "
                 "distinct_nontrivial = distinct texts that yield at least two tokens" % (len(TILING_ALPHABET), maxlen, len(EXH_ALPHABET)))
     ctx.assumptions = ["the reference lexer (harness/reflex.py) is a faithful reading of the SPL lexical grammar",
                        "conformance is decided only for lexically valid text (no stray characters, unterminated literals or digit-less 0x)"]
     ctx.floor("evaluations", ctx.evaluations, 50000)
     ctx.floor("conformance comparisons", ctx.extra.get("counters", {}).get("conform_compared", 0), 10000)
+    ctx.floor("texts whose token sequence came from lexer::update", ctx.extra.get("counters", {}).get("texts_reached_by_an_incremental_update", 0), 10000)
 
 
 def replay(ctx, sc):
     ad = Adaptor(); part = Part()
-    check_batch(ad, [sc["text"]], sc["kind"], part)
+    check_batch(ad, [sc["text"]], sc["kind"], part, [sc["via"]] if sc.get("via") else None)
     ctx.merge(part); ctx.see(1); ctx.see(2)
